@@ -194,15 +194,19 @@ int main(void)
 	ASSUME(IN.flip_byte < 8);
 	for (i = 0; i < 8; i++)
 		if ((unsigned) i == IN.flip_byte) vf_uf_hdr[i] ^= (unsigned char) (1 << IN.flip_bit);
-#elif DAMAGE == 2 || DAMAGE == 7
-	/* header crc mismatch.  DAMAGE=2: a bit of sb_crc/state/f_compat/fs_offset or of the crc field itself; DAMAGE=7 (thorough): a bit of the structural fields num_keys..fs_block_size */
+#elif DAMAGE == 2 || DAMAGE == 7 || DAMAGE == 8
+	/* header crc mismatch.  DAMAGE=2: a bit of the crc field itself; DAMAGE=8 (thorough): a bit of sb_crc/state/f_compat/fs_offset; DAMAGE=7 (thorough): a bit of the structural fields num_keys..fs_block_size */
 #if DAMAGE == 2
-	ASSUME((IN.flip_byte >= 40 && IN.flip_byte < 52) || (IN.flip_byte >= 64 && IN.flip_byte < 72) || (IN.flip_byte >= 508 && IN.flip_byte < 512));
+	ASSUME(IN.flip_byte >= 508 && IN.flip_byte < 512);
+#elif DAMAGE == 8
+	ASSUME((IN.flip_byte >= 40 && IN.flip_byte < 52) || (IN.flip_byte >= 64 && IN.flip_byte < 72));
 #else
 	ASSUME(IN.flip_byte >= 8 && IN.flip_byte < 40);
 #endif
+#if DAMAGE != 2		/* (loops are compile-time split: an ASSUME does not keep the other header bytes constant) */
 	for (i = 8; i < 72; i++)
 		if ((unsigned) i == IN.flip_byte) vf_uf_hdr[i] ^= (unsigned char) (1 << IN.flip_bit);
+#endif
 	for (i = 508; i < 512; i++)
 		if ((unsigned) i == IN.flip_byte) vf_uf_hdr[i] ^= (unsigned char) (1 << IN.flip_bit);
 #elif DAMAGE == 3	/* unknown incompat / rocompat feature, header crc valid */
